@@ -138,6 +138,10 @@ func main() {
 	thorough := flag.Bool("thorough", false, "include the exhaustive small-universe enumerations")
 	list := flag.Bool("list", false, "list domains")
 	flag.Parse()
+	if *isoChild != "" {
+		isoChildMain()
+		return
+	}
 	if *list {
 		names := []string{}
 		for k := range domains {
